@@ -145,11 +145,15 @@ def specifiedDirectives : List String := ["include", "skip", "deprecated"]
 /-- what the builder can see while building definitions: the definitions of the document and the
     supplied (`additional_types`) live types, which take precedence (`_cache.update(additional_types)`) -/
 structure Env where
-  defs : List TypeDef
-  additional : List TypeD := []
+  /-- `_type_defs[name]` -/
+  findDef : String → Option TypeDef
+  /-- `additional_types` by name -/
+  findAdditional : String → Option TypeD
 
-def Env.findAdditional (e : Env) (n : String) : Option TypeD := e.additional.find? (·.name == n)
-def Env.findDef (e : Env) (n : String) : Option TypeDef := e.defs.find? (·.name == n)
+/-- the builder's view of a list of definitions and of supplied types: BY-NAME lookups only, so everything
+    built from an `Env` is independent of the order of the definitions -/
+def Env.of (defs : List TypeDef) (additional : List TypeD := []) : Env :=
+  { findDef := fun n => defs.find? (·.name == n), findAdditional := fun n => additional.find? (·.name == n) }
 
 /-- `build_type` on a named reference can resolve it -/
 def Env.resolves (e : Env) (n : String) : Bool :=
@@ -463,9 +467,9 @@ def thunkReach (env : Env) (target : String) : Nat → String → Bool
     | some d => (thunkEdges env d).any fun m => m == target || thunkReach env target fuel m
 
 /-- some input type's field thunk re-enters itself: the real builder overflows the stack -/
-def hasThunkCycle (env : Env) : Bool :=
-  env.defs.any fun d => d.kind == .input && (env.findAdditional d.name).isNone && !isDefaultName d.name
-                         && thunkReach env d.name env.defs.length d.name
+def hasThunkCycle (env : Env) (defs : List TypeDef) : Bool :=
+  defs.any fun d => d.kind == .input && (env.findAdditional d.name).isNone && !isDefaultName d.name
+                         && thunkReach env d.name defs.length d.name
 
 /-! ### roots -/
 
@@ -508,29 +512,36 @@ structure Live where
 
 /-- supplied types that are referenced but not defined are registered through the closure of
     `_build_type_map` (supplied types are assumed closed under references) -/
-def referencedAdditional (env : Env) (types : List TypeD) (dirs : List DirectiveD) (roots : Roots) : List TypeD :=
+def referencedAdditional (additional : List TypeD) (types : List TypeD) (dirs : List DirectiveD) (roots : Roots) : List TypeD :=
   let names := types.flatMap (fun t => t.interfaces ++ t.members ++ t.fields.flatMap (fun f => f.type.base :: f.args.map (·.type.base))
                  ++ t.inputFields.map (·.type.base))
                ++ dirs.flatMap (fun d => d.args.map (·.type.base))
                ++ [roots.query, roots.mutation, roots.subscription].filterMap id
-  env.additional.filter fun a => !types.any (·.name == a.name) && names.contains a.name
+  additional.filter fun a => !types.any (·.name == a.name) && names.contains a.name
 
-def buildIgnoringExtensions (doc : Doc) (additional : List TypeD) : R (Env × Live) := do
-  let c ← collectDefinitions doc
-  let env : Env := { defs := c.types, additional := additional }
-  if hasThunkCycle env then .error (.internal "RecursionError")     -- finding S1b
+/-- root operation types: the `schema` block, else the default names -/
+def buildRoots (env : Env) (sd : Option SchemaDef) (types : List TypeD) : R Roots :=
+  match sd with
+  | none => pure (defaultRoots types)
+  | some sd => addOps env.resolves (.lib .sdl) {} sd.ops
+
+/-- the part of `build_schema_ignoring_extensions` after `_collect_definitions` -/
+def buildCollected (c : Collected) (additional : List TypeD) : R (Env × Live) := do
+  let env : Env := Env.of c.types additional
+  if hasThunkCycle env c.types then .error (.internal "RecursionError")     -- finding S1b
   let dirs ← c.directives.mapM (buildDirective env)
   let built ← c.types.mapM (buildType env)
   let types := built.filterMap id
   if hasEagerCycle types then sdlErr                 -- circular-reference guard of build_type
-  let roots ←
-    match c.schemaDef with
-    | none => pure (defaultRoots types)
-    | some sd => addOps env.resolves (.lib .sdl) {} sd.ops
+  let roots ← buildRoots env c.schemaDef types
   -- `_build_directive_map`: a user directive may not take the name of a specified one
   if dirs.any (fun d => specifiedDirectives.contains d.name) then schemaErr
-  let extra := referencedAdditional env types dirs roots
+  let extra := referencedAdditional additional types dirs roots
   pure (env, { types := types ++ extra, directives := dirs, roots := roots })
+
+def buildIgnoringExtensions (doc : Doc) (additional : List TypeD) : R (Env × Live) := do
+  let c ← collectDefinitions doc
+  buildCollected c additional
 
 /-! ### `_collect_extensions` (strict = False) and `ASTTypeBuilder.extend_*` -/
 
